@@ -100,3 +100,17 @@ Proof.
   destruct p as [p|]; [|discriminate]. intros _.
   rewrite (ascii_only_plan symbols (sorter symbols) HS data p st EO). reflexivity.
 Qed.
+
+Theorem ascii_only_first_fit sorter data symbols cw s :
+  (forall k l l', sorter symbols k l = Ok l' -> incl l' l) ->
+  encode_data_internal (optimize_fn sorter) data symbols None 1 false false = Ok (cw, s) ->
+  first_symbol_big_enough_for symbols (N.of_nat (length (flat_map aitem_cw (greedy data)))) = Some s.
+Proof.
+  intros HS H. apply (ascii_plan_first_fit (optimize_fn sorter) data symbols 1 cw s); [|exact H].
+  revert H. unfold encode_data_internal. cbv zeta. cbn [bind]. unfold codewords. cbn [with_size e_symbols e_data e_modes].
+  destruct symbols as [|s0 sr] eqn:ES; [discriminate|]. rewrite <- ES in *.
+  destruct (_ <? _); [discriminate|]. destruct (upper_limit_for_number_of_codewords _ _); [|discriminate].
+  unfold optimize_fn. change (cw_len (with_size data symbols 1 false)) with 0. destruct (optimize symbols (sorter symbols) data 0 Ascii 1) as [[p st]| |] eqn:EO; cbn [bind lift]; try discriminate.
+  destruct p as [p|]; [|discriminate]. intros _.
+  rewrite (ascii_only_plan symbols (sorter symbols) HS data p st EO). reflexivity.
+Qed.
